@@ -480,10 +480,14 @@ def work_sched_bilform(item):
                     this = s2
             # determinism self-check: the same schedule again must give the same bits
             if (item['lo'] + idx) % item['twice_mod'] == 0 and val is not None:
-                _, _, val2 = bilform_call(spec, SL, nodes)
+                pr3, _, val2 = bilform_call(spec, SL, nodes)
                 out['n'] += 1
                 out['twice'] += 1
-                if val2 is None or not same_bits(val, val2):
+                if pr3:
+                    # the repeated request on the same operator no longer matches the pairwise reference: the code under test
+                    # depends on its call history - a violation of the property, not a non-determinism of the harness
+                    report(spec, spec, 'same request repeated on the same operator: ' + pr3[0])
+                elif val2 is None or not same_bits(val, val2):
                     out['nonrepro'].append(describe(spec))
             prev = this
         if idx == 0 and item['lo'] == 0 or idx == len(parts) - 1:
@@ -619,10 +623,14 @@ def work_sched_linform(item):
                     out['viols'].append(({'clause': 'schedule', 'fn': 'linform_vector'}, describe(s2) + ': ' + pr2[0], rp))
                     break
         if (item['lo'] + idx) % item['twice_mod'] == 0 and val is not None:
-            _, _, val2 = linform_call(spec, M0, nodes)
+            pr3, _, val2 = linform_call(spec, M0, nodes)
             out['n'] += 1
             out['twice'] += 1
-            if val2 is None or not same_bits(val, val2):
+            if pr3:
+                rp = dict(spec)
+                rp['prev'] = spec
+                out['viols'].append(({'clause': 'schedule', 'fn': 'linform_vector'}, describe(spec) + ': same request repeated on the same operator: ' + pr3[0], rp))
+            elif val2 is None or not same_bits(val, val2):
                 out['nonrepro'].append(describe(spec))
         prev = spec
         if len(out['samples']) < 1:
@@ -760,10 +768,12 @@ def work_sched_est(item):
                     out['viols'].append(({'clause': 'schedule', 'fn': fn}, '{} completion order {}: {}'.format(fn, rank, pr2[0]), s2))
                     break
         if (item['lo'] + idx) % item['twice_mod'] == 0 and val is not None:
-            _, _, val2 = est_call(spec)
+            pr3, _, val2 = est_call(spec)
             out['n'] += 1
             out['twice'] += 1
-            if val2 is None or not same_bits(val, val2):
+            if pr3:
+                out['viols'].append(({'clause': 'schedule', 'fn': fn}, '{} same request repeated: {}'.format(fn, pr3[0]), spec))
+            elif val2 is None or not same_bits(val, val2):
                 out['nonrepro'].append('{} {}'.format(fn, list(assign)))
         if len(out['samples']) < 1:
             out['samples'].append({'clause': 'schedule', 'fn': fn, 'curve': item['curve'], 'cpu': item['cpu'],
